@@ -1,0 +1,15 @@
+//go:build verif
+
+package formula
+
+// VerifHook, when set, is called with a site number from every loop body of the
+// scanner and parser, from the entry of the recursive parse functions and from the
+// entry of Runner.resolve. It exists only under the `verif` build tag and is used
+// by external runtime monitors (step counting, schedule widening).
+var VerifHook func(site int)
+
+func verifTick(site int) {
+	if h := VerifHook; h != nil {
+		h(site)
+	}
+}
